@@ -926,90 +926,102 @@ pub fn c18(ctx: &Ctx) -> Report {
         }
         let _ = t;
     });
-    // measurement on the real crate
-    let mut rng = Rng::new(ctx.seed ^ 0xC18);
-    let sizes: Vec<usize> = if ctx.thorough() { vec![50, 300, 2000, 8000, 20000] } else { vec![50, 1000, 6000] };
-    for (ti, n) in sizes.iter().enumerate() {
-        for bits in [4u32, 10, 16].iter() {
-            for kind in 0..3 {
-                if !ctx.thorough() && (ti + kind) % 3 != 0 && *bits != 10 {
-                    continue;
-                }
-                let block_size = *rng.pick(&[8usize, 64, 512, 4096, 16384]);
-                let mut keys: Vec<Vec<u8>> = (0..*n)
-                    .map(|i| match kind {
-                        0 => {
-                            let l = rng.range(8, 16);
-                            rng.any_bytes(l)
-                        }
-                        1 => format!("key{:08}", i * 3).into_bytes(),
-                        _ => {
-                            let mut k = b"common/prefix/shared/by/all/keys/".to_vec();
-                            k.extend(rng.any_bytes(6));
-                            k
-                        }
-                    })
-                    .collect();
-                keys.sort();
-                keys.dedup();
-                let cfg = WCfg { cmp: CmpKind::Bytewise, block_size, restart: 16, snappy: false, pol: PolKind::Bloom(*bits) };
-                let mut img = Vec::new();
-                {
-                    let mut b = sstable::TableBuilder::new(cfg.options(), &mut img);
-                    for k in keys.iter() {
-                        b.add(k, b"v").unwrap();
+    // measurement on the real crate: full grid of table size x block size x bits x key kind, in parallel
+    let sizes: Vec<usize> = if ctx.thorough() { vec![50, 300, 2000, 8000, 20000] } else { vec![50, 1000, 20000] };
+    let block_sizes: Vec<usize> = vec![8, 64, 512, 4096, 16384];
+    let mut grid: Vec<(usize, usize, u32, usize)> = vec![];
+    for n in sizes.iter() {
+        for bs in block_sizes.iter() {
+            if *bs == 8 && *n > 2000 {
+                continue; // one entry per block: covered by the smaller tables
+            }
+            for bits in [4u32, 10, 16].iter() {
+                for kind in 0..3usize {
+                    if !ctx.thorough() && *bits != 10 && (kind + *bs) % 2 == 1 {
+                        continue;
                     }
-                    b.finish().unwrap();
-                }
-                let reads = Arc::new(std::sync::atomic::AtomicUsize::new(0));
-                let mut o = Options::default().with_cache_capacity(64);
-                o.filter_policy = PolKind::Bloom(10).boxed();
-                let size = img.len();
-                let tb = Table::new(o, Box::new(CountingFile { data: img, reads: reads.clone() }), size).unwrap();
-                let lookups = 20000;
-                let mut touched = 0usize;
-                let mut wrong = 0usize;
-                let _ = sstable::verif::take_block_events();
-                for j in 0..lookups {
-                    // absent by construction: a different length class / a marker byte no stored key has
-                    let probe: Vec<u8> = match kind {
-                        0 => {
-                            let mut p = rng.any_bytes(17);
-                            p[0] = rng.next() as u8;
-                            p
-                        }
-                        1 => format!("key{:08}", (j * 7 + 1) % (n * 3 + 100) / 3 * 3 + 1).into_bytes(),
-                        _ => {
-                            let mut k = b"common/prefix/shared/by/all/keys/".to_vec();
-                            k.extend(rng.any_bytes(7));
-                            k
-                        }
-                    };
-                    let before = reads.load(std::sync::atomic::Ordering::SeqCst);
-                    let r = tb.get(&probe);
-                    let evs = sstable::verif::take_block_events();
-                    let after = reads.load(std::sync::atomic::Ordering::SeqCst);
-                    if !evs.is_empty() || after != before {
-                        touched += 1;
-                    }
-                    if !matches!(r, Ok(None)) {
-                        wrong += 1;
-                    }
-                }
-                let rate = touched as f64 / lookups as f64;
-                let label = format!("keys={} n={} block_size={} bits_per_key={} rate={:.4}", ["random", "sequential", "shared-prefix"][kind], keys.len(), block_size, bits, rate);
-                rep.case(&label, true);
-                rep.count_n("absent_key_lookups", lookups as u64);
-                rep.count_n("lookups_touching_a_data_block", touched as u64);
-                rep.notes.push(label.clone());
-                rep.sample(J::obj(vec![("table", J::s(&label))]));
-                let limit = if *bits >= 10 { 0.03 } else { 0.5 };
-                if rate >= limit || wrong > 0 {
-                    rep.judge_fail(J::obj(vec![("what", J::s("absent-key lookups touch data blocks more often than the configured filter allows (or return a value)")), ("table", J::s(&label)), ("limit", J::F(limit)), ("wrong_answers", J::N(wrong as i64)), ("seed", J::N(ctx.seed as i64))]));
+                    grid.push((*n, *bs, *bits, kind));
                 }
             }
         }
     }
+    let grid = &grid;
+    let measured = parallel(&ctx.driver, ctx.threads, ctx.seed ^ 0xC18, Report::new("C18", ""), |t, _d, rng, rep| {
+        for (gi, (n, block_size, bits, kind)) in grid.iter().enumerate() {
+            if gi % ctx.threads.max(1) != t {
+                continue;
+            }
+            let (n, block_size, bits, kind) = (*n, *block_size, *bits, *kind);
+            let mut keys: Vec<Vec<u8>> = (0..n)
+                .map(|i| match kind {
+                    0 => {
+                        let l = rng.range(8, 16);
+                        rng.any_bytes(l)
+                    }
+                    1 => format!("key{:08}", i * 3).into_bytes(),
+                    _ => {
+                        let mut k = b"common/prefix/shared/by/all/keys/".to_vec();
+                        k.extend(rng.any_bytes(6));
+                        k
+                    }
+                })
+                .collect();
+            keys.sort();
+            keys.dedup();
+            let cfg = WCfg { cmp: CmpKind::Bytewise, block_size, restart: 16, snappy: false, pol: PolKind::Bloom(bits) };
+            let mut img = Vec::new();
+            {
+                let mut b = sstable::TableBuilder::new(cfg.options(), &mut img);
+                for k in keys.iter() {
+                    b.add(k, b"v").unwrap();
+                }
+                b.finish().unwrap();
+            }
+            let reads = Arc::new(std::sync::atomic::AtomicUsize::new(0));
+            let mut o = Options::default().with_cache_capacity(64);
+            o.filter_policy = PolKind::Bloom(10).boxed();
+            let size = img.len();
+            let tb = Table::new(o, Box::new(CountingFile { data: img, reads: reads.clone() }), size).unwrap();
+            let lookups = 20000;
+            let mut touched = 0usize;
+            let mut wrong = 0usize;
+            let _ = sstable::verif::take_block_events();
+            for j in 0..lookups {
+                // absent by construction: a different length class / a residue no stored key has
+                let probe: Vec<u8> = match kind {
+                    0 => rng.any_bytes(17),
+                    1 => format!("key{:08}", (j * 7 + 1) % (n * 3 + 100) / 3 * 3 + 1).into_bytes(),
+                    _ => {
+                        let mut k = b"common/prefix/shared/by/all/keys/".to_vec();
+                        k.extend(rng.any_bytes(7));
+                        k
+                    }
+                };
+                let before = reads.load(std::sync::atomic::Ordering::SeqCst);
+                let r = tb.get(&probe);
+                let evs = sstable::verif::take_block_events();
+                let after = reads.load(std::sync::atomic::Ordering::SeqCst);
+                if !evs.is_empty() || after != before {
+                    touched += 1;
+                }
+                if !matches!(r, Ok(None)) {
+                    wrong += 1;
+                }
+            }
+            let rate = touched as f64 / lookups as f64;
+            let label = format!("keys={} n={} block_size={} bits_per_key={} rate={:.4}", ["random", "sequential", "shared-prefix"][kind], keys.len(), block_size, bits, rate);
+            rep.case(&label, true);
+            rep.count_n("absent_key_lookups", lookups as u64);
+            rep.count_n("lookups_touching_a_data_block", touched as u64);
+            rep.notes.push(label.clone());
+            rep.sample(J::obj(vec![("table", J::s(&label))]));
+            let limit = if bits >= 10 { 0.03 } else { 0.5 };
+            if rate >= limit || wrong > 0 {
+                rep.judge_fail(J::obj(vec![("what", J::s("absent-key lookups touch data blocks more often than the configured filter allows (or return a value)")), ("table", J::s(&label)), ("limit", J::F(limit)), ("wrong_answers", J::N(wrong as i64)), ("seed", J::N(ctx.seed as i64))]));
+            }
+        }
+    });
+    rep.merge(measured);
     rep.max_samples = 12;
     rep
 }
